@@ -545,6 +545,28 @@ def schedules(r, n: int):
         yield [r.choice([1, 1, 2, 3, 4, 7, 64, 4096]) for _ in range(r.randint(1, 12))] + ([10 ** 6] if r.random() < 0.5 else [])
 
 
+def header_critical_streams() -> list[bytes]:
+    """Valid streams on which the delimiting decision needs the THIRD byte of the header (parse/ioutils.py, delimited_jelly_hint):
+    delimited with a first frame of exactly 10 bytes (0A 0A xx, an options-only frame), and non-delimited with a first row of exactly
+    10 bytes whose first field is the options (0A 0A 0A)."""
+    from pyjelly import jelly
+
+    def opts(**kw):
+        return jelly.RdfStreamOptions(physical_type=1, max_name_table_size=16, version=1, **kw)
+    rows2 = [jelly.RdfStreamRow(name=jelly.RdfNameEntry(id=0, value="http://e/s")), jelly.RdfStreamRow(name=jelly.RdfNameEntry(id=0, value="http://e/p")),
+             jelly.RdfStreamRow(triple=jelly.RdfTriple(s_iri=jelly.RdfIri(name_id=1), p_iri=jelly.RdfIri(name_id=2), o_literal=jelly.RdfLiteral(lex="x")))]
+    f1 = jelly.RdfStreamFrame(rows=[jelly.RdfStreamRow(options=opts())])
+    f2 = jelly.RdfStreamFrame(rows=rows2)
+    out = []
+    if f1.ByteSize() == 10:
+        out.append(refenc.frames_bytes([f1, f2], True))            # 0A 0A 08 ...
+    o8 = opts(logical_type=1)                                    # an options message of 8 bytes: a row of 10
+    one = jelly.RdfStreamFrame(rows=[jelly.RdfStreamRow(options=o8)] + rows2)
+    if o8.ByteSize() == 8:
+        out.append(refenc.frames_bytes([one], False))             # 0A 0A 0A 08 ...
+    return out
+
+
 @plan(
     "C09",
     "PS: valid streams (pyjelly's and the reference encoder's, delimited and not) supplied as BytesIO, BufferedReader, gzip, and a "
@@ -555,13 +577,18 @@ def schedules(r, n: int):
 def c09(ctx):
     out = []
     r = ctx.rng
-    for si in range(ctx.n(40, 600)):
-        rdf11 = r.random() < 0.5
-        st = fam_parse.ref_stream(ctx, rdf11=rdf11)
-        if st is None:
-            continue
-        delim = r.random() < 0.8
-        data = refenc.frames_bytes(st["frames"], delim)
+    critical = header_critical_streams()
+    ctx.report.count("C09/streams whose third header byte decides", len(critical))
+    for si in range(-len(critical), ctx.n(40, 600)):
+        if si < 0:
+            rdf11, data = True, critical[si + len(critical)]
+        else:
+            rdf11 = r.random() < 0.5
+            st = fam_parse.ref_stream(ctx, rdf11=rdf11)
+            if st is None:
+                continue
+            delim = r.random() < 0.8
+            data = refenc.frames_bytes(st["frames"], delim)
         igs = ("g", "r") if rdf11 else ("g",)
         for ig in igs:
             base_end, base_evs, _ = fam_parse.impl_flat(ig, data)
